@@ -1,5 +1,6 @@
 (* C12 — What coba reads from a dataset file is what the file says.  Property theorems only. *)
 From Coq Require Import ZArith List Bool.
+From Coba Require Import C12.ModelArffSparse C12.ProofsArffSparse.
 From Coba Require Import Generated.C12_gen C12.Model C12.ModelArff C12.ProofsLines C12.ProofsRest C12.ProofsArff.
 Import ListNotations.
 Open Scope Z_scope.
@@ -53,6 +54,19 @@ Print Assumptions csv_roundtrip.
 Theorem arff_dense_line_roundtrip : forall q, q = 39 \/ q = 34 -> forall cells, cells <> [] -> arff_parse q (arff_line q cells) = cells.
 Proof. exact arff_line_roundtrip_lemma. Qed.
 Print Assumptions arff_dense_line_roundtrip.
+
+(* ARFF sparse data lines  {k v, k v, ...}: the reader's steps (strip, drop the braces, split at commas, split key from value at white space, join the pieces of a
+   quoted value while it is unclosed, strip, unquote, unescape) read a line written the Weka/OpenML way back to its (key, value) pairs - for all values over
+   any characters (commas, both quote characters, backslashes, spaces, percent, braces ...), white space other than the blank excluded *)
+Theorem arff_sparse_line_roundtrip : forall q, q = 39 \/ q = 34 -> forall pairs,
+  Forall (fun kv => key_ok (fst kv) /\ val_ok (snd kv)) pairs -> sparse_parse (sparse_line q pairs) = Some pairs.
+Proof. exact sparse_line_roundtrip_lemma. Qed.
+Print Assumptions arff_sparse_line_roundtrip.
+
+Example sparse_example :
+  sparse_parse (sparse_line 39 [([49], [97; 44; 32; 98]); ([50], []); ([51; 52], [120; 39; 92]); ([53], [32; 44])]) =
+  Some [([49], [97; 44; 32; 98]); ([50], []); ([51; 52], [120; 39; 92]); ([53], [32; 44])].
+Proof. vm_compute. reflexivity. Qed.
 
 Example delim_example : delim_read brk_py [[97; 13]; [10; 98; 11]; []; [99]] = [[97]; [98]; [99]].
 Proof. vm_compute. reflexivity. Qed.
